@@ -270,7 +270,7 @@ def check_class(case, ctx, rng_key):
             viol.append({"key": "C12/children-not-in-schema-sequence-order", "what": "%s shape %d: %s" % (case["id"], shape, sproblems[0][:400])})
         want_foreign = _count_foreign(x)
         got_foreign = len([e for e in root.iter() if e.tag.startswith("{urn:verif:foreign}")])
-        got_fattr = sum(1 for e in root.iter() for a in e.attrib if a.startswith("{urn:verif:foreign}"))
+        got_fattr = sum(1 for e in root.iter() for a, v in e.attrib.items() if a.startswith("{urn:verif:foreign}") or a.endswith("}verifExtra") or str(v).startswith("own-ns-"))
         if want_foreign:
             hit("foreign_items_checked", want_foreign[0] + want_foreign[1])
         if (got_foreign, got_fattr) != want_foreign:
@@ -297,7 +297,7 @@ def _count_foreign(obj):
     if isinstance(obj, ExtensionElement):
         return (0, 0)
     ne = len([e for e in (obj.extension_elements or []) if e.namespace == "urn:verif:foreign"])
-    na = len([a for a in (obj.extension_attributes or {}) if a.startswith("{urn:verif:foreign}")])
+    na = len([a for a, v in (obj.extension_attributes or {}).items() if a.startswith("{urn:verif:foreign}") or a.endswith("}verifExtra") or str(v).startswith("own-ns-")])
     for member in schema.members_in_order(obj.__class__):
         v = getattr(obj, member, None)
         if v is None:
